@@ -8,6 +8,9 @@
   `StructsStable`: the guard the byte-slice decoders need (a listed finding): the parent steps over a nested
   STRUCT by `Size()` of what it understood, so the reader's `Size()` (`gsize env1`, which skips the fields
   the reader marks deprecated) of what it decodes must equal the bytes the struct occupies on the wire.
+  Structs nobody steps over by `Size()` are exempt themselves (their contents are not): the top-level
+  record (`TopStable`) and a struct that is itself a union branch (the union is stepped over by its
+  length prefix).
 -/
 import Bebop.Wire
 
@@ -114,7 +117,10 @@ mutual
     the reader's `Size()` of what it decodes equals the bytes on the wire:
     `gsize env1 (.ref n) (restrict env1 (.ref n) s) = vsize s` (equivalently: inside such a struct no
     message field is dropped by the reader, and none that is present is marked deprecated by the reader).
-    Nothing is required of messages and unions themselves. -/
+    Nothing is required of messages and unions themselves.  A struct that is itself the MEMBER of a union
+    is treated like a top-level struct (`TopStable`, `structsStable_union`): the union decodes its member
+    last and is stepped over by its own length prefix, so the member struct's `Size()` positions nothing;
+    only its contents are constrained. -/
 def StructsStable (env1 : Env) (ty : Ty) : Val → Prop
   | .scalar _ _ => True
   | .str _ => True
@@ -148,7 +154,15 @@ def StructsStable (env1 : Env) (ty : Ty) : Val → Prop
       match env1[n]? with
       | some (.union brs) =>
         match brs.lookup d with
-        | some m => StructsStable env1 (.ref m) v
+        | some m =>
+          -- the member is the LAST thing the union decodes and the union itself is stepped over by its
+          -- length prefix: a struct that IS the member is like a top-level struct (`TopStable`)
+          match v with
+          | .struct fs =>
+            match env1[m]? with
+            | some (.struct tys) => stableStruct env1 tys fs
+            | _ => True
+          | w => StructsStable env1 (.ref m) w
         | none => True
       | _ => True
     | _ => True
@@ -170,13 +184,22 @@ def stableFields (env1 : Env) (fds : List MsgField) : List (Nat × Val) → Prop
      | none => True) ∧ stableFields env1 fds fs
 end
 
-/-- The guard for a TOP-LEVEL record `n`: a top-level struct is not stepped over by anybody, so nothing is
-    asked of its own size, only of what it contains; a top-level message / union is as in nested position. -/
+/-- The guard for a record `n` that NOBODY steps over by its `Size()`: the top-level record, and the member
+    of a union (`structsStable_union`).  Such a struct is not stepped over by anybody, so nothing is asked of
+    its own size, only of what it contains; a message / union in that position is as in nested position. -/
 def TopStable (env1 : Env) (n : Nat) : Val → Prop
   | .struct fs =>
     match env1[n]? with
     | some (.struct tys) => stableStruct env1 tys fs
     | _ => True
   | v => StructsStable env1 (.ref n) v
+
+/-- The union case of `StructsStable`: the member `v` of branch `m` is asked exactly what a top-level record
+    is asked.  A struct that is itself a union branch need not keep its size — the union decoder decodes the
+    member last and is stepped over by its length prefix — only the structs nested INSIDE it must. -/
+theorem structsStable_union (env1 : Env) {n : Nat} {brs : List (Nat × Nat)} {d m : Nat} (v : Val)
+    (hn : env1[n]? = some (.union brs)) (hm : brs.lookup d = some m) :
+    StructsStable env1 (.ref n) (.union d v) = TopStable env1 m v := by
+  cases v <;> simp only [StructsStable, TopStable, hn, hm]
 
 end Bebop
